@@ -25,6 +25,8 @@ positioning pseudo-field never joins a struct block (no struct code outside Int 
 
 Round 6: (m) only Move.pack and the per-element pad of Sequence.pack set the cursor; an element
 packed without the pad; class-wide align rules decided on paths.
+Round 7: a Move is never switched off at class creation (a neighbour's alignment with an unexamined
+reference point is no proof that the cursor is aligned).
 """
 import ast
 import copy
